@@ -518,3 +518,67 @@ def run_cbor_reader(run, P, wire_units=('coap_oscore.c',), reader_unit='oscore_c
             e.ts['cov'] = 'bulk' if 'bulk' in (cov, env.ts.get('cov')) else 1
             return e
         solve(f, Env({'cov': 0}), on_event, None, None, None, key_fn=lambda e: e.ts.get('cov'), on_branch=on_branch, max_envs=64)
+
+
+def run_token_ext(run, P, units=('coap_pdu.c',), parsers=('coap_pdu_parse_header',)):
+    """R-RANGE (extended token length bytes): the header parser finds the length of an RFC 8974 extended token in the first one or two bytes
+    behind the fixed header: pdu->token[0], pdu->token[1].  A message may end right after its header, and the PDU is allocated for exactly
+    what arrived, so those bytes exist only if used_size says so: every read of `pdu->token[K]` (K constant) in the header parser lies on
+    a path that knows pdu->used_size >= K + 1."""
+    run.rule('R-RANGE')
+    n = 0
+    for fn in parsers:
+        if not P.has(fn):
+            run.require(run.fixture_mode, 'R-RANGE(token extension): anchor %s() not found' % fn)
+            continue
+        f = P.func(fn)
+        reads = []
+        used = set()
+        for b, ev in P.events(f):
+            t = ev['e']
+            if not ev.get('top') and t.get('k') != 'decl':
+                continue          # sub-expression events repeat what their statement contains
+            parts = [t.get('r')] if t.get('k') == 'asg' else [t]
+            # `&pdu->token[K]` computes an address, it does not read the byte
+            addr = set(id(strip(y.get('e'))) for y in walk(parts) if isinstance(y, dict) and y.get('k') == 'un' and y.get('op') == '&')
+            for x in walk(parts):
+                if id(x) in addr:
+                    continue
+                if isinstance(x, dict) and x.get('k') in ('sub', 'idx') and const_int(x.get('i')) is not None:
+                    base = strip(x.get('b'))
+                    if isinstance(base, dict) and base.get('k') == 'mem' and base.get('f') == 'token' and base.get('rec') == 'coap_pdu_t' and ap(base.get('b')):
+                        reads.append((ev, const_int(x['i']), ap(base['b']) + '->used_size'))
+                        used.add(ap(base['b']) + '->used_size')
+        if not reads:
+            continue
+        rid = {}
+        for ev, K, u in reads:
+            rid.setdefault(id(ev), []).append((K, u))
+
+        def is_rule_event(ev):
+            return id(ev) in rid
+        keys, R = relevance(f, is_rule_event, used)
+        R = set(R) | used
+        keys = set(keys)
+        for b in f['blocks']:
+            c = (b.get('term') or {}).get('cond')
+            if c is not None and any(isinstance(x, dict) and ap(x) in used for x in walk(c)):
+                keys.add(b['id'])
+        done = set()
+
+        def on_event(ev, env, ctx):
+            for K, u in rid.get(id(ev), ()):
+                lo, hi, ex = env.intf(u)
+                ok = lo >= K + 1
+                run.oblige('R-RANGE', ok, '%s:token[%d]' % (fn, K))
+                if (ev['loc'], K) not in done:
+                    done.add((ev['loc'], K))
+                    run.instance('R-RANGE', '%s: pdu->token[%d] read within used_size' % (fn, K))
+                if not ok:
+                    run.violation('R-RANGE', fn, ev['loc'], 'token-extension-byte-unchecked:%d' % K,
+                                  'pdu->token[%d] is read on a path that does not know pdu->used_size >= %d: for a message that ends right after its header this is the first '
+                                  'byte behind the PDU\'s heap block' % (K, K + 1), ctx.path())
+            return None
+        n += len(reads)
+        solve(f, Env(), on_event, None, keys, R, key_fn=lambda e: tuple(e.intf(u)[:2] for u in sorted(used)))
+    run.require(n >= 2 or run.fixture_mode, 'R-RANGE(token extension): fewer than 2 reads of pdu->token[K] found in the header parser')
